@@ -26,13 +26,13 @@ import (
 
 // Prov is the provenance of a template value.
 type Prov struct {
-	Kind string      // dot | field | method | func | lit | var | index | unknown
-	Name string      // selector / function name / literal text
-	Obj  types.Object // *types.Var (field) or *types.Func (method, FuncMap function)
-	Recv *Prov       // receiver of a field / method
-	RecvT types.Type // static type of the receiver
-	T    types.Type  // static type of the value
-	Args []*Prov     // call arguments (func, method)
+	Kind  string       // dot | field | method | func | lit | var | index | unknown
+	Name  string       // selector / function name / literal text
+	Obj   types.Object // *types.Var (field) or *types.Func (method, FuncMap function)
+	Recv  *Prov        // receiver of a field / method
+	RecvT types.Type   // static type of the receiver
+	T     types.Type   // static type of the value
+	Args  []*Prov      // call arguments (func, method)
 }
 
 func (p *Prov) String() string {
